@@ -1,4 +1,5 @@
 import SeaQ.Lemmas.Scan
+import SeaQ.Lemmas.RenderCtx
 /-!
 # C01 — placeholders and bound values correspond one-to-one, in order
 
@@ -14,6 +15,12 @@ lexers of C03 / C04; a placeholder counts only outside them).
   ascending (Postgres), where n is the number of returned values; the i-th placeholder is
   the one written for the i-th value.
 * `C01_statement`: the instance for the rendering of any statement of the model.
+* `render_safe`: **every** statement of the model whose pieces are individually well-formed
+  (`contentOK`: no panic marker, representable constant values, caller-supplied raw text only
+  as digit strings, no `CustomWithExpr` template) renders to a `Safe` list — by mutual structural
+  induction over the 41 render functions (`Lemmas/RenderCtx.lean`), for every nesting depth,
+  every dialect, both writers.  `C01_all_statements` is C01 for all those statements with no
+  `Safe` hypothesis left.
 
 `Safe` (`SeaQ.Scan.safe`, decidable) says every piece is well-formed where it stands: text
 written by the renderer and caller-supplied raw text contain no quote character and no
@@ -21,8 +28,9 @@ placeholder mark, a quoted name is not followed by its quote character, a string
 is representable (C03) and not followed by `'`, a Postgres `E'..'` / `$n` does not follow a
 word character, a placeholder is not followed by a digit / word character.  The check
 evaluates `safe` on the rendering of every generated statement whose raw text is closed
-(the harness's `tame` statements) and requires it to hold; that every raw-free statement
-renders to a safe list is the theorem `render_safe` still to be proved (DESIGN.md, C01).
+(the harness's `tame` statements) and requires it to hold; for statements with caller-supplied
+raw text (custom expressions, operators, function names, templates) `Safe` is decided per case,
+for all others it is a theorem (`render_safe`).
 -/
 namespace SeaQ.Props.C01
 open SeaQ.Escape SeaQ.Render SeaQ.Stmt SeaQ.Scan
@@ -106,6 +114,30 @@ theorem C01_statement (d : Backend) (s : Query) (h : safe d false false 0 (rQuer
   let ⟨its, h1, h2, _⟩ := C01_placeholders d (rQuery d s) h
   ⟨its, h1, h2⟩
 
+/-- **every statement whose pieces are individually well-formed renders to a safe list** -/
+theorem render_safe (d : Backend) (inl : Bool) (q : Query)
+    (hc : (rQuery d q).all (contentOK d inl) = true) : safe d inl false 0 (rQuery d q) = true := by
+  rw [SafeN.safe_eq_safeN]
+  exact SafeN.ctx_sound d inl _ false false .emp none (by simp) rfl hc (SafeN.c_query d q false .emp rfl)
+
+/-- **C01 for every statement of the model without caller-supplied raw text** -/
+theorem C01_all_statements (d : Backend) (q : Query) (hc : (rQuery d q).all (contentOK d false) = true) :
+    ∃ its, segment d (textP d (rQuery d q)).1 = some its ∧
+      placeholders its = expectedMarks d (textP d (rQuery d q)).2.length :=
+  C01_statement d q (render_safe d false q hc)
+
+/-- for the parameterised writer the bound values are unconstrained: any value may be bound -/
+example (d : Backend) (v : Val) : contentOK d false (.p v) = true := rfl
+
+/-- a statement meeting the hypothesis: `SELECT "a" FROM "t" WHERE "a" = ? AND "b" IN (?, ?) ORDER BY "a" DESC LIMIT ?` -/
+def demoQ : Query :=
+  .sel (.mk none none (.cons (.col (.col "a")) .none none .nil) (.cons (.named ⟨["t"], none⟩) .nil) [] none .nil
+    (.cond (.mk false false
+      (.consE (.bin (.col (.col "a")) (.std 10) (.value ⟨"String", .str "x?'".toList⟩))
+        (.consE (.bin (.col (.col "b")) (.std 6) (.tuple (.cons (.value ⟨"Int", .int 1⟩) (.cons (.value ⟨"Int", .int 2⟩) .nil)))) .nil))))
+    .nil .empty .nil (.cons (.col (.col "a")) .desc none .nil) (some ⟨"Unsigned", .int 3⟩) none none "" none)
+example : (rQuery .postgres demoQ).all (contentOK .postgres false) = true := by decide
+example : (rQuery .mysql demoQ).all (contentOK .mysql true) = true := by decide
 /-! Non-vacuity: a statement with a quoted name containing the mark, a string literal
 containing marks and quotes, and three parameters; and a text the reading rejects. -/
 def demo : Pieces :=
